@@ -15,8 +15,9 @@ caddy.Load / caddy.Validate / caddy.Stop with one fault. Code modelled:
               t.loaded; TLS.Cleanup: if caddy.ActiveContext() has a tls app, remove from the cache
               what this app loaded and that one did not; otherwise drop the whole cache.
               During caddy.Stop() the active context is still the one being stopped, so Cleanup
-              finds ITSELF as the "next" tls app and removes nothing (quirk kept: `step`; what the
-              property wants: `stepW`).
+              found ITSELF as the "next" tls app and removed nothing — repaired by /repo 985d095
+              (`nextTLS.(*TLS) != t`): `step` uses `stopW`; the old behaviour is kept as `stop` /
+              `stepOld` / `runOld` for the `…_old_code_fails` witnesses.
 
 Protocol:  E <step> <step> …   step = S | L<ev><fault>=<tls> | V<ev><fault>=<tls>   (see
 harness/internal/lifecycle/stdapps.go). A certificate is identified with its subject (0‥3).
@@ -121,28 +122,31 @@ def validate (s : St) (cid : Nat) (c : SCfg) : St × Res × List Out :=
   (⟨s.running, cleanupTls c s.running (cacheAdd s.cache (certsOf c))⟩, resOf c.fault,
    provOuts cid c ++ optOut (hasHandler c) (.hclean cid))
 
-/-- caddy.Stop AS IT IS: unsyncedStop runs while the stopping configuration is still the active
-    context, so its tls app's Cleanup compares with itself -/
+/-- caddy.Stop as it was BEFORE /repo 985d095: unsyncedStop runs while the stopping configuration is
+    still the active context, and its tls app's Cleanup compared with itself -/
 def stop (s : St) : St × Res × List Out :=
   match s.running with
   | some (j, o) => (⟨none, cleanupTls o (some (j, o)) s.cache⟩, .ok, endOuts j o)
   | none => (s, .ok, [])
 
-/-- caddy.Stop as the property wants it: nothing is active any more when the modules are cleaned up -/
+/-- caddy.Stop as it is (since 985d095): the tls app being stopped has no successor — TLS.Cleanup
+    treats "the active tls app is me" as "no tls app follows" -/
 def stopW (s : St) : St × Res × List Out :=
   match s.running with
   | some (j, o) => (⟨none, cleanupTls o none s.cache⟩, .ok, endOuts j o)
   | none => (s, .ok, [])
 
+/-- one operation, as the code is since /repo 985d095 (TLS.Cleanup no longer takes itself for its successor) -/
 def step (s : St) (cid : Nat) : Step → St × Res × List Out
   | .load c => load s cid c
   | .validate c => validate s cid c
-  | .stop => stop s
+  | .stop => stopW s
 
-def stepW (s : St) (cid : Nat) : Step → St × Res × List Out
+/-- one operation with caddy.Stop as it was BEFORE 985d095 (kept for the `…_old_code_fails` witnesses) -/
+def stepOld (s : St) (cid : Nat) : Step → St × Res × List Out
   | .load c => load s cid c
   | .validate c => validate s cid c
-  | .stop => stopW s
+  | .stop => stop s
 
 /-- a history from state `s`, the first step being context number `cid` -/
 def trace (s : St) (cid : Nat) : List Step → List (St × Res × List Out)
@@ -153,9 +157,9 @@ def run (s : St) (cid : Nat) : List Step → St
   | [] => s
   | x :: xs => run (step s cid x).1 (cid + 1) xs
 
-def runW (s : St) (cid : Nat) : List Step → St
+def runOld (s : St) (cid : Nat) : List Step → St
   | [] => s
-  | x :: xs => runW (stepW s cid x).1 (cid + 1) xs
+  | x :: xs => runOld (stepOld s cid x).1 (cid + 1) xs
 
 /-! ## protocol -/
 
